@@ -802,8 +802,13 @@ class KEval:
             a = self.ev(e.left, env, S, f, guards, loops, depth)
             b = self.ev(e.right, env, S, f, guards, loops, depth)
             if isinstance(a, tuple) or isinstance(b, tuple):
-                if isinstance(a, tuple) and isinstance(b, tuple) and isinstance(e.op, ast.Add):
+                if isinstance(a, tuple) and isinstance(b, tuple) and isinstance(e.op, ast.Add) and not getattr(self, "_vector_tuples", False):
                     return a + b
+                # a small vector (np.array([..])) combined with a scalar: element-wise
+                if isinstance(a, tuple) and not isinstance(b, tuple) and isinstance(self.scalar(b), Poly):
+                    return tuple(self.binop(e.op, self.scalar(x), self.scalar(b)) for x in a)
+                if isinstance(b, tuple) and not isinstance(a, tuple) and isinstance(self.scalar(a), Poly):
+                    return tuple(self.binop(e.op, self.scalar(a), self.scalar(x)) for x in b)
                 return TOP
             if isinstance(a, Cond) and isinstance(b, Cond) and isinstance(e.op, (ast.BitAnd, ast.BitOr)):
                 return Cond("and" if isinstance(e.op, ast.BitAnd) else "or", a, b, node=e)  # element-wise boolean combination
